@@ -85,6 +85,15 @@ def model(rep, t):
     if res.violated != 'Termination':
         raise tlc.MachineryError('vacuity: with SwallowUpstream <- SwallowsOn Parallelize.tla must violate Termination')
     rep.notes['non_vacuity_upstream_failure'] = 'with the pinned producer (SwallowUpstream) TLC refutes Termination when the upstream fails, as expected'
+    # ... and a rejected design (a seeded change of round 8): the producer closes q_in after the end markers; a worker forked after the
+    # feeder has flushed inherits dead handles - when that happens to ALL workers the rows are lost and the run still ends normally
+    cfg = tlc.write_cfg(os.path.join(wd, 'closes.cfg'), spec='Spec',
+                        constants={'R': 2, 'N': 2, 'Sel': '{1, 2}', 'Fail': '{}', 'FailAt': 0, 'ClosesIn': '<- SwallowsOn'},
+                        invariants=['ExactlyOnce'])
+    res = tlc.run_tlc('Parallelize', cfg, workers=2, timeout=3000)
+    if res.violated != 'ExactlyOnce':
+        raise tlc.MachineryError('vacuity: with ClosesIn <- SwallowsOn Parallelize.tla must violate ExactlyOnce')
+    rep.notes['non_vacuity_fork_steps'] = 'the start is modelled step by step (producer thread, one fork per worker, fetcher thread): with the rejected design ClosesIn TLC refutes ExactlyOnce (every worker forked after the pipe was closed)'
     return total
 
 
